@@ -21,6 +21,18 @@ CHECKS = {
         design="7/C03"),
 }
 
+CHECKS["C12"] = dict(
+    text="Machine-checked proof (Coq): for every operation history of any length over {set, insert copy, delete, copy, "
+         "select-by-tuple, set attribute, assign data} on any number of handles the tree invariant (children listed once, "
+         "visible keys present, ids = chain of quoted names, id lookup returns the variable) holds, an operation changes only "
+         "the handle it edits, copies share data tokens; quoting is idempotent, reversible (no literal escapes) and yields only "
+         "legal characters, for all byte strings. The value-level tree model and the quoting model are compared with pydap's "
+         "objects after every step of seeded random histories and on all short strings.",
+    note=TB + "Names modelled as UTF-8 byte strings; data/attribute values as opaque tokens; nested datasets and "
+              "Sequence/Grid sub-selection are outside the model.",
+    technique="Coq proof (invariant by induction over operation lists; 256-case finite facts by vm_compute) + vm_compute correspondence on random histories",
+    design="7/C12")
+
 NOT_YET = {
 }
 
